@@ -558,7 +558,7 @@ package valid
 //@ func (*VStruct).validate
 //@   requires vs.ok(v) && cache.inv() && !rv.ro(value)
 //@   modifies sb.content(v.errBuf), sb.nw(v.errBuf), cache.stored, lst.mem, lst.stamp, lst.size, mu.held, mu.acq, cb.count, cb.key, cb.val, "H.container/list.Element.Value", v.vc.valid2FieldsMap, "MapDom.String.Slice", "MapVal.String.Slice", "MapLen.String.Slice", "Mem.Int"
-//@   ensures result == v && vs.ok(v) && cache.inv()
+//@   ensures [C08 C12 validate.post] result == v && vs.ok(v) && cache.inv()
 //@   loop#0 invariant vs.ok(v) && cache.inv() && 0 <= fieldNum && totalFieldNum == len(cacheStructType.fieldInfos) && entry.ok(ty, v.targetTag, cacheStructType)
 //@   loop#1 invariant vs.ok(v) && cache.inv() && entry.ok(ty, v.targetTag, cacheStructType) && 0 <= fieldNum && fieldNum < totalFieldNum
 
